@@ -191,6 +191,25 @@ pub fn run(out: &mut Out, seed: u64, thorough: bool) {
                     let (rv, rid) = if rooted { reader_verdict(chain, &unk, e.id, is_master, e.ty) } else { ("na".to_string(), json!([])) };
                     out.ev(json!({"ev":"path","chain":chain.iter().map(|c| idw(*c)).collect::<Vec<_>>(),"unk":unk,"tag":idw(e.id),"tag_unknown":false,
                                   "w":wv,"wid":wid,"r":rv,"rid":rid}));
+                    // the tag as a child of a Full item of the innermost master (children of Full items are validated like any other tag)
+                    if !unk[chain.len() - 1] && !is_master {
+                        let mut dest3: Vec<u8> = Vec::new();
+                        let mut w3 = TagWriter::new(&mut dest3);
+                        let mut ok = true;
+                        for (k, id) in chain.iter().enumerate().take(chain.len() - 1) {
+                            let st = DynTag { id: *id, v: DynVal::M(Master::Start) };
+                            let r = guarded(|| if unk[k] { w3.write_advanced(&st, WriteOptions::is_unknown_sized_element()) } else { w3.write(&st) });
+                            if !matches!(r, Ok(Ok(()))) { ok = false; break; }
+                        }
+                        if ok {
+                            let full = DynTag { id: chain[chain.len() - 1], v: DynVal::M(Master::Full(vec![tag.clone()])) };
+                            let g = guarded(|| w3.write(&full));
+                            let (wv3, wid3) = match &g { Err(_) => ("other".to_string(), json!([])), Ok(Ok(())) => ("ok".to_string(), json!([])),
+                                Ok(Err(TagWriterError::UnexpectedTag { tag_id, .. })) => ("unexpected_tag".to_string(), idw(*tag_id)), Ok(Err(_)) => ("other".to_string(), json!([])) };
+                            out.ev(json!({"ev":"path","chain":chain.iter().map(|c| idw(*c)).collect::<Vec<_>>(),"unk":unk,"tag":idw(e.id),"tag_unknown":false,"full":true,
+                                          "w":wv3,"wid":wid3,"r":"na","rid":[]}));
+                        }
+                    }
                     // the same chain with its innermost masters already ended when the tag comes: by a known size of their own (the
                     // outermost of the ended group must have one), unknown-size masters inside it ending with it
                     for ex in 1..chain.len() {
